@@ -512,6 +512,20 @@ def run_check(prop_id, tier, seed):
         lines.append(f"VIOLATION property={prop_id} replay={path} no-failing-input-found")
         violations += 1
 
+    # thorough tier: independent re-check of the compiled property file with coqchk, axioms listed
+    coqchk = None
+    if tier == "thorough" and os.environ.get("VERIF_NO_COQCHK") != "1" and not any(k == "proof" for k, _, _ in tie_breaks):
+        lib = "Mesa." + prop.COQ_PROPERTY_FILE[:-2].replace("/", ".")
+        rc, out, err = sh(["coqchk", "-o", "-Q", ".", "Mesa", lib], cwd=COQ, timeout=1800)
+        txt = out + err
+        m = re.search(r"\* Axioms:(.*?)\n\s*\n\* Constants", txt, re.S)
+        coqchk = {"rc": rc, "axioms": (m.group(1).strip() if m else "unparsed"), "ok": "Modules were successfully checked" in txt}
+        log(f"[{prop_id}] coqchk rc={rc} axioms={coqchk['axioms'][:80]}  t={time.time()-t0:.1f}s")
+        if rc != 0 or not coqchk["ok"]:
+            path = write_replay(prop_id, {"property": prop_id, "kind": "tie-broken", "what": "coqchk rejected the compiled property file", "log": txt[-2000:]})
+            lines.append(f"VIOLATION property={prop_id} replay={path} no-failing-input-found")
+            violations += 1
+
     # 6: evidence
     wall = time.time() - t0
     hist = {}
@@ -534,6 +548,7 @@ def run_check(prop_id, tier, seed):
             "trusted_base": prop.TRUSTED_BASE,
             "property_theorems": b.get("theorem_names", []),
             "print_assumptions": b.get("assumptions", {}),
+            "coqchk": coqchk,
             "translator_constructs": getattr(prop, "TABLE_CONSTRUCTS", []),
             "modelled_source_functions": [f"{a}::{b}" for a, b in getattr(prop, "SOURCE_FUNCS", [])],
             "modelled_source_functions_changed_since_baseline": moved,
